@@ -472,6 +472,35 @@ class _Idioms(ast.NodeTransformer):
             else:
                 return None, None
 
+    def _accumulate_loops(self, stmts):
+        """`x = 0; for b in D: x = (x << 8) | b`  ->  `x = int.from_bytes(D, 'big')`   (D: a bytes parameter of the function; `reversed(D)`: 'little')"""
+        out = []
+        i = 0
+        while i < len(stmts):
+            st = stmts[i]
+            nxt = stmts[i + 1] if i + 1 < len(stmts) else None
+            done = False
+            if isinstance(st, ast.Assign) and len(st.targets) == 1 and isinstance(st.targets[0], ast.Name) and isinstance(st.value, ast.Constant) and st.value.value == 0 \
+                    and type(st.value.value) is int and isinstance(nxt, ast.For) and not nxt.orelse and isinstance(nxt.target, ast.Name) and len(nxt.body) == 1:
+                x, b = st.targets[0].id, nxt.target.id
+                body = nxt.body[0]
+                it = nxt.iter
+                order = 'big'
+                if isinstance(it, ast.Call) and isinstance(it.func, ast.Name) and it.func.id == 'reversed' and len(it.args) == 1:
+                    it, order = it.args[0], 'little'
+                shapes = {f"{x} = {x} << 8 | {b}", f"{x} = ({x} << 8) + {b}", f"{x} = {x} * 256 + {b}", f"{x} = {b} | {x} << 8", f"{x} = {b} + ({x} << 8)", f"{x} = 256 * {x} + {b}", f"{x} = {x} * 256 | {b}"}
+                params = getattr(self, 'bytes_params', [set()])[-1]
+                if ast.unparse(body) in shapes and isinstance(it, ast.Name) and it.id in params and x != b:
+                    call = ast.Call(func=ast.Attribute(value=ast.Name(id='int', ctx=ast.Load()), attr='from_bytes', ctx=ast.Load()), args=[it, ast.Constant(order)], keywords=[])
+                    out.append(_fix(ast.Assign(targets=[ast.Name(id=x, ctx=ast.Store())], value=call, type_comment=None), st))
+                    ast.fix_missing_locations(out[-1])
+                    i += 2
+                    done = True
+            if not done:
+                out.append(st)
+                i += 1
+        return out
+
     def _hoist_walrus(self, test):
         """-> (assignments, new test) : leading walruses of the test turned into assignments that precede it"""
         pre = []
@@ -509,7 +538,7 @@ class _Idioms(ast.NodeTransformer):
                     st.body = pre + [brk] + st.body
                     ast.fix_missing_locations(st)
             hoisted.append(st)
-        stmts = hoisted
+        stmts = self._accumulate_loops(hoisted)
         out = []
         i = 0
         while i < len(stmts):
@@ -547,7 +576,12 @@ class _Idioms(ast.NodeTransformer):
 
     def _fn(self, node):
         self.in_fn = getattr(self, 'in_fn', 0) + 1
+        if not hasattr(self, 'bytes_params'):
+            self.bytes_params = []
+        self.bytes_params.append({a.arg for a in node.args.args + node.args.kwonlyargs
+                                  if a.annotation is not None and ast.unparse(a.annotation).replace(' ', '') in ('bytes', 'bytearray', 'bytes|bytearray', 'bytearray|bytes')})
         node = self.generic_visit(node)
+        self.bytes_params.pop()
         self.in_fn -= 1
         return node
     visit_FunctionDef = _fn
